@@ -55,6 +55,8 @@ package bbolt
 //@   returns (err)
 //@   props C18
 //@   ensures err == nil ==> db.datasz >= minsz
+//@   ensures [mapped] err == nil ==> db.data != nil && db.meta0 != nil && db.meta1 != nil && (metavalid(db.meta0) || metavalid(db.meta1))
+//@   ensures [failed] err != nil ==> db.data == nil || (db.data == old(db.data) && db.meta0 == old(db.meta0) && db.meta1 == old(db.meta1))
 //@   ensures db.rwtx == old(db.rwtx) && db.pageSize == old(db.pageSize) && db.MaxSize == old(db.MaxSize) && db.AllocSize == old(db.AllocSize)
 //@   ensures db.rwtx != nil ==> db.rwtx.meta == old(db.rwtx.meta) && db.rwtx.meta.pgid == old(db.rwtx.meta.pgid)
 //@   modifies db.dataref, db.data, db.datasz, db.meta0, db.meta1, all("node.key"), all("node.inodes"), all("Inode.key"), all("Inode.value"), allelems("byte")
@@ -69,6 +71,10 @@ package bbolt
 //@   ensures [maxsize] err == nil && db.MaxSize > 0 && db.rwtx.meta.pgid != old(db.rwtx.meta.pgid) ==> (db.rwtx.meta.pgid + 1) * db.pageSize <= db.MaxSize
 //@   ensures [mapped] err == nil && db.rwtx.meta.pgid != old(db.rwtx.meta.pgid) ==> (db.rwtx.meta.pgid + 1) * db.pageSize <= db.datasz
 //@   ensures [errclean] err != nil ==> db.rwtx.meta.pgid == old(db.rwtx.meta.pgid)
+//@   ensures [mapfail] err != nil ==> db.data == nil || (db.data == old(db.data) && db.meta0 == old(db.meta0) && db.meta1 == old(db.meta1))
+//@   ensures [mapok] err == nil ==> (db.data == old(db.data) && db.meta0 == old(db.meta0) && db.meta1 == old(db.meta1)) || (db.data != nil && db.meta0 != nil && db.meta1 != nil && (metavalid(db.meta0) || metavalid(db.meta1)))
+//@   ensures [same] db.rwtx == old(db.rwtx) && db.rwtx.meta == old(db.rwtx.meta) && db.pageSize == old(db.pageSize) && db.freelist == old(db.freelist) && db.rwlock.held == old(db.rwlock.held) && db.MaxSize == old(db.MaxSize)
+//@   ensures [metasame] forall m *common.Meta :: allocated(m) && m != db.rwtx.meta ==> metavalid(m) == old(metavalid(m))
 //@   ensures [page] err == nil ==> p != nil && p.overflow == count - 1 && (p.id >= 2 || p.id == old(db.rwtx.meta.pgid))
 //@   ensures [fresh] err == nil && db.rwtx.meta.pgid != old(db.rwtx.meta.pgid) ==> p.id == old(db.rwtx.meta.pgid)
 
@@ -236,5 +242,5 @@ package bbolt
 //@   requires (tx.meta.pgid + 4294967296) * tx.db.pageSize <= 2305843009213693952 && tx.db.AllocSize >= 0 && tx.db.AllocSize <= 2305843009213693952 && tx.db.datasz >= 0 && tx.db.MaxSize >= 0
 //@   requires tx.db.data != nil ==> tx.db.meta0 != nil && tx.db.meta1 != nil && (metavalid(tx.db.meta0) || metavalid(tx.db.meta1))
 //@   ensures [rolledback] err != nil ==> tx.db == nil && calls("(*Tx).rollback", tx) == old(calls("(*Tx).rollback", tx)) + 1
-//@   ensures [ok] err == nil ==> tx.db == old(tx.db) && calls("(*Tx).rollback", tx) == old(calls("(*Tx).rollback", tx)) && tx.meta.freelist != common.PgidNoFreelist && calls("freelist.Interface.Write", tx.db.freelist) == old(calls("freelist.Interface.Write", tx.db.freelist)) + 1
+//@   ensures [ok] err == nil ==> tx.db == old(tx.db) && calls("(*Tx).rollback", tx) == old(calls("(*Tx).rollback", tx)) && calls("freelist.Interface.Write", tx.db.freelist) == old(calls("freelist.Interface.Write", tx.db.freelist)) + 1
 //@   ensures [disk] unsynced == old(unsynced) && nwrites == old(nwrites)
